@@ -167,26 +167,18 @@ Qed.
 Lemma bok_enc_root : bok (enc_domain_name []).
 Proof. apply bok_enc_domain_name. constructor. Qed.
 
-(* ---- addresses: the loop copies a prefix of the address octets ---- *)
-Lemma addr_prefix_loop_ok op step oct : bytes_ok oct -> forall prefix b,
-  addr_prefix_loop op step oct prefix = Ok b -> bytes_ok b.
+(* ---- addresses: the writer copies a prefix of the address octets ---- *)
+Lemma bytes_ok_takeN_ (n : N) (l : bytes) : bytes_ok l -> bytes_ok (takeN n l).
 Proof.
-  induction 1 as [|x r Hx _ IH]; intros prefix b; cbn [addr_prefix_loop].
-  - intros E. inversion E. constructor.
-  - destruct (cmp_apply op prefix 8); [intros E; inversion E; constructor; [exact Hx|constructor]|].
-    destruct (prefix <? step); [discriminate|].
-    destruct (addr_prefix_loop op step r (prefix - step)) as [t| | |] eqn:Et; try discriminate.
-    intros E. inversion E. constructor; [exact Hx|]. eapply IH. exact Et.
+  intros H. unfold takeN. rewrite <- (firstn_skipn (N.to_nat n) l) in H. apply Forall_app in H. apply H.
 Qed.
-Lemma bok_rr_address_with_prefix a p : bytes_ok (a_oct a) -> bok (rr_address_with_prefix a p).
+Lemma bok_rr_address_with_length a m : bytes_ok (a_oct a) -> bok (rr_address_with_length a m).
 Proof.
-  intros H. unfold rr_address_with_prefix. destruct (a_fam a =? 1).
-  - destruct (addr_prefix_loop OP_enc_prefix4 ENC_PREFIX_STEP4 (a_oct a) p) as [b| | |] eqn:E; auto with bokdb.
-    apply bok_put. eapply addr_prefix_loop_ok; eassumption.
-  - destruct (addr_prefix_loop OP_enc_prefix6 ENC_PREFIX_STEP6 (a_oct a) p) as [b| | |] eqn:E; auto with bokdb.
-    apply bok_put. eapply addr_prefix_loop_ok; eassumption.
+  intros H. apply (bok_pointwise (put (takeN (N.max (addr_significant (a_oct a)) m) (a_oct a)))).
+  - intros s. symmetry. apply rr_address_with_length_eq.
+  - apply bok_put. apply bytes_ok_takeN_. exact H.
 Qed.
-#[export] Hint Resolve bok_enc_domain_name bok_enc_root bok_rr_address_with_prefix : bokdb.
+#[export] Hint Resolve bok_enc_domain_name bok_enc_root bok_rr_address_with_length : bokdb.
 
 (* ---- fields ---- *)
 Lemma bok_write_field k o : (forall v, o = Some v -> fv_bytes_ok v) -> bok (write_field k o).
